@@ -118,6 +118,32 @@ impl Default for ServerSettings {
     }
 }
 
+#[cfg(mainline_verif)]
+#[derive(Debug, Clone, Default)]
+/// Sizes of the stores of a [Server] (verification snapshot).
+pub struct StoreSizes {
+    /// immutable values held
+    pub immutable_values: usize,
+    /// mutable values held
+    pub mutable_values: usize,
+    /// (info hashes held, largest number of peers under one info hash)
+    pub peers: (usize, usize),
+    /// (info hashes held, largest number of signed peers under one info hash)
+    pub signed_peers: (usize, usize),
+}
+
+#[cfg(mainline_verif)]
+impl Server {
+    pub(crate) fn verif_sizes(&self) -> StoreSizes {
+        StoreSizes {
+            immutable_values: self.immutable_values.len(),
+            mutable_values: self.mutable_values.len(),
+            peers: self.peers.verif_sizes(),
+            signed_peers: self.signed_peers.verif_sizes(),
+        }
+    }
+}
+
 impl Server {
     /// Creates a new [Server]
     pub fn new(settings: ServerSettings) -> Self {
